@@ -209,6 +209,20 @@ def make_connection(port, rec, cls=None, early_listener=True, **kw):
     return conn
 
 
+def safe_disconnect(conn, timeout=2.0):
+    """Best-effort clean-up that cannot hang the harness (the connection's
+    lock may be stuck in a scenario that went wrong)."""
+    def go():
+        try:
+            conn.disconnect(immediate=True)
+        except Exception:
+            pass
+    t = threading.Thread(target=go, name='vf-cleanup', daemon=True)
+    t.start()
+    t.join(timeout)
+    return not t.is_alive()
+
+
 def threads_of(conn):
     return [t for t in (conn.networking_thread, conn.new_networking_thread)
             if t is not None]
